@@ -57,6 +57,7 @@ def expr_paths(prog, kind):
             gr = handler.cls.find_method("get_result")
             f2 = Func(gr, gr.node, None, bound_self=handler, module=gr.module, defcls=gr.cls)
             pr.result = it.invoke(f2, [], {}, gr.node)
+            pr.extra["yields"] = list(it.yields)
 
         return run_protected(it, pr, body)
 
